@@ -18,6 +18,7 @@ Holds(rel, r, ren) ==
   CASE rel = "subset"    -> BagSubset(r[2], r[1])
     [] rel = "superset"  -> BagSubset(r[1], r[2])
     [] rel = "equal"     -> BagEq(r[1], r[2])
+    [] rel = "equal_foldbag" -> BagEqB(r[1], r[2])
     [] rel = "renamed"   -> BagEq(r[1], [j \in 1..Len(r[2]) |-> RenameRow(r[2][j], ren)])
     [] rel = "partition" -> BagEq(r[1], r[2] \o r[3])
 Judged == ph = 0 \/
